@@ -103,6 +103,14 @@ PredictionIsALabel == \A am \in Rows(lab) : /\ PredLabel(lab, am) \in Range(lab)
                                             /\ PredLabel(lab, am) = LabelOf(lab, am)
 TableIndexInRange == \A am \in Rows(lab) : /\ TableRow(lab, PredLabel(lab, am)) \in Rows(lab)
                                            /\ TableRow(lab, PredLabel(lab, am)) = am
+(* the pinned tree's mapping breaks for EVERY 1-based label vector (row 0 maps to a label that is not a training label, rows 0 *)
+(* and 1 read the feature tables at a negative row) and is right for every 0-based one                                    *)
+PlusPosBreaksEvery1Based == (LabelMap = "plus_pos" /\ ClassStart(lab) = 1) =>
+                               /\ PredLabel(lab, 0) \notin Range(lab)
+                               /\ \A am \in Rows(lab) : am < 2 => TableRow(lab, PredLabel(lab, am)) < 0
+                               /\ \A am \in Rows(lab) : PredLabel(lab, am) # LabelOf(lab, am)
+PlusPosRightFor0Based == (LabelMap = "plus_pos" /\ ClassStart(lab) = 0) =>
+                            \A am \in Rows(lab) : PredLabel(lab, am) = LabelOf(lab, am) /\ TableRow(lab, PredLabel(lab, am)) = am
 (* priors sum to one, the prior-weighted class means give the grand mean *)
 PriorsSumToOne == LET F[k \in 0..NClass(lab)] == IF k = 0 THEN 0 ELSE F[k - 1] + Count(lab, k - 1)
                   IN F[NClass(lab)] = Len(lab)
